@@ -16,12 +16,12 @@ import (
 // YAML node tree (malformed stream: missing/duplicate/unknown keys, wrong scalar types, nil vs empty).
 
 type confGen struct {
-	r     *Rng
-	viol  int // per mille chance of breaking a rule at each decision
-	noise int // per mille chance of odd spellings (case, spaces, invalid names)
-	hier  int // per mille chance of exceeding a budget of the hierarchy
+	r      *Rng
+	viol   int  // per mille chance of breaking a rule at each decision
+	noise  int  // per mille chance of odd spellings (case, spaces, invalid names)
+	hier   int  // per mille chance of exceeding a budget of the hierarchy
 	single bool // exactly one partition called default
-	paths []confPath
+	paths  []confPath
 }
 
 type confPath struct {
@@ -37,8 +37,8 @@ var confOddUsers = []string{"9bad", "a b", "", "u1$x", "u~"}
 var confGroups = []string{"g1", "dev", "ops", "grp:a"}
 var confOddGroups = []string{"g$", "1g", "", "a/b"}
 
-func (g *confGen) bad() bool { return g.r.Intn(1000) < g.viol }  // per mille
-func (g *confGen) odd() bool { return g.r.Intn(1000) < g.noise } // per mille
+func (g *confGen) bad() bool              { return g.r.Intn(1000) < g.viol }  // per mille
+func (g *confGen) odd() bool              { return g.r.Intn(1000) < g.noise } // per mille
 func (g *confGen) pick(l []string) string { return l[g.r.Intn(len(l))] }
 
 // quantity text for a value in base units (vcore: milli)
